@@ -8,9 +8,9 @@ HARNESSES = [
     dict(name="int", pkg="./internal/pppoe/", test="TestVerifC04Int",
          files=[("internal/pppoe/zz_verif_c04_int_test.go", "harness/C04/zz_verif_c04_int_test.go")]),
 ]
-# repaired = all four repairs; head = /repo HEAD (owner check + sid guard committed; id reservation and guarded index
-# removal proposed in fixes/); head_reserve / head_guard = HEAD plus one of the two proposed patches
-VARIANTS = ["repaired", "head", "head_reserve", "head_guard"]
+# one model variant: Repaired = /repo HEAD (all six findings are fixed there: b12b708, 731c2cc, 46cb3dc, 9893c59).
+# A regression to any of the old defects is a VIOLATION.
+VARIANTS = ["repaired"]
 MODEL_NEEDS_IMPL = True   # the wall-clock second the implementation ran in is read from its output
 RULE = ("ck: cookie cases = one Generate (compared byte for byte) + Validate queries: the 37 truncations, an extension, "
         "every byte flipped, tuple permutations (other MAC, MAC length 0/5/7/8, VLANs swapped/shifted), forged cookies "
@@ -374,7 +374,8 @@ def gen_tb_collide(rng, tier):
     for grp in COLLIDE:
         for mac in MACS[:1] if tier == "quick" else MACS:
             ts = [(mac, a, b) for a, b in grp]
-            ops = ["R/%s/%s" % (tup(t), ck_valid(t)) for t in ts]
+            ops = ["K/%s/%s" % (mac, ",".join("%d.%d" % ab for ab in grp + [grp[0]]))]
+            ops += ["R/%s/%s" % (tup(t), ck_valid(t)) for t in ts]
             n = len(ts)
             for i, t in enumerate(ts):
                 for j in range(n):
@@ -519,38 +520,6 @@ def classify(case, impl, model):
         if x != y:
             return "P", "op #%d %s: implementation %s, model (repaired) %s" % (i, ops[i] if i < len(ops) else "?", x, y)
     return "P", "final session table differs: impl %r model %r" % (idump[:200], mdump[:200])
-
-
-def signature(case, impl, models):
-    """Which recorded defect explains a case where the implementation matches a non-repaired variant only."""
-    if not case.startswith("tb"):
-        return None
-    io, idump = split_tb(impl)
-    mo, mdump = split_tb(models["repaired"])
-    if io is None or mo is None:
-        return None
-    ops = tb_ops(case)
-    for i, (x, y) in enumerate(zip(io, mo)):
-        if x == y:
-            continue
-        kind = ops[i].split("/")[0] if i < len(ops) else "?"
-        if kind == "P" and x.startswith("ovl:"):
-            ids = x[4:].split("+")
-            if len(ids) != len(set(ids)):
-                return "concurrent-padr-same-session-id"
-        return "other-op-%s" % kind
-    # all op outputs agree, the final table differs: which index entries are left
-    it, mt = (idump or "").split(), (mdump or "").split()
-    if len(it) == len(mt):
-        diff = [(a, b) for a, b in zip(it[2:], mt[2:]) if a != b]
-        if diff and all(a.rsplit(":", 1)[0] == b.rsplit(":", 1)[0] for a, b in diff):
-            fl = set()
-            for a, b in diff:
-                fa, fb = a.rsplit(":", 1)[1], b.rsplit(":", 1)[1]
-                fl |= {i for i in range(min(len(fa), len(fb))) if fa[i] != fb[i]}
-            if fl <= {1, 3} and all(a.rsplit(":", 1)[1].count("1") < b.rsplit(":", 1)[1].count("1") for a, b in diff):
-                return "remove-deletes-index-entry-of-another-session"
-    return "final-table-only"
 
 
 def shrink(case):
